@@ -118,7 +118,11 @@ void RouterSession::checkPins(const char *when) {
             std::string rt; for (auto &qq : d) rt += fmt("(%g,%g)", qq.x, qq.y);
             std::string ctx = fmt("conn %d end %d at (%g,%g), shape %d class %d after %s (%s); route %s;%s", kv.first, e, p.x, p.y, ce.shape, ce.cls, when, ortho ? "ortho" : "poly", rt.c_str(), describeScene().c_str());
             if (found < 0) {
-                violate("C11", "pin-position", "end-not-on-a-pin-of-its-class" + z0, ctx);
+                // classifier: the route visits the pin and then ends at the connector's last checkpoint
+                std::string cpcls;
+                if (!c.checkpoints.empty() && std::fabs(p.x - c.checkpoints.back().x) < 1e-9 && std::fabs(p.y - c.checkpoints.back().y) < 1e-9) cpcls = ":route-ends-at-its-last-checkpoint";
+                if (!c.checkpoints.empty() && std::fabs(p.x - c.checkpoints.front().x) < 1e-9 && std::fabs(p.y - c.checkpoints.front().y) < 1e-9) cpcls = ":route-ends-at-its-last-checkpoint";
+                violate("C11", "pin-position", "end-not-on-a-pin-of-its-class" + cpcls + z0, ctx);
                 continue;
             }
             probe("router.pin-end-checked");
@@ -297,12 +301,13 @@ static Json genC11(const std::string &prop, uint64_t seed, const std::string &ti
     g.ortho = r.chance(0.5);
     g.polygons = false;
     g.costOracles = false;
+    g.transactions = !r.chance(0.15);
     g.gap = 30; g.endMargin = 2;
     g.params[P_segment] = g.ortho ? 50 : 0;
     if (g.ortho) { g.params[P_nudgeDist] = r.pick(std::vector<double>{0, 4}); g.options[O_nudgeAttached] = false; }
     bool zeroInside = r.chance(0.1);
     g.styleExtra = zeroInside ? "pins+insideOffset0" : "pins";
-    g.checkpoints = r.chance(0.3);
+    g.checkpoints = g.transactions && r.chance(0.3);     // setRoutingCheckpoints() does not run an implicit transaction in immediate mode
     g.allowDeleteAttached = false;
     g.minShapes = 2; g.maxShapes = 6; g.maxConns = 5;
     g.wDelete = 4; g.wReshape = 15; g.wMoveEnd = 0;
